@@ -58,18 +58,25 @@ def inits(tier: str, seed: int) -> list:
 def configs(tier: str, seed: int):
     vals = subjref.alphabet(seed)
     cfgs = []
-    for init in inits(tier, seed):
-        for s in script_sets(tier):
+    for n, init in enumerate(inits(tier, seed)):
+        # thorough: the full script product with the first initial value (None), the quick script set with the others
+        for s in script_sets(tier if n == 0 else "quick"):
             cfgs.append({"kind": "behavior", "init": init, "scripts": s, "values": vals, "err": "plain"})
     cfgs.append({"kind": "behavior", "init": None, "scripts": [P, P, P], "values": vals, "err": "falsy"})
-    depth = 7 if tier == "quick" else 20
-    return cfgs, [depth] * len(cfgs)
+    depth = 7 if tier == "quick" else 30
+    depths = [depth] * len(cfgs)
+    # self-check of the state key (subjref.audit_merges): every merge re-validated by extending both histories
+    audits = [[["sub", 2], P, ["unsub", 0]]] if tier == "quick" else [[P, P, P], [["unsub", 1], ["unsub", 0], P], [["sub", 2], P, ["unsub", 0]]]
+    for s in audits:
+        cfgs.append({"kind": "behavior", "init": None, "scripts": s, "values": vals, "err": "plain", "audit": 4 if tier == "quick" else 5})
+        depths.append(0)
+    return cfgs, depths
 
 
 def run(ctx: core.Ctx):
     cfgs, depths = configs(ctx.tier, ctx.seed)
-    ctx.bounds = {"depth": depths[0], "observers": 3, "initial_values": repr(inits(ctx.tier, ctx.seed)),
-                  "configurations": len(cfgs), "script_configurations": sorted({subjref.script_tag(c) for c in cfgs}), "values": repr(cfgs[0]["values"])}
+    ctx.bounds = {"depth": max(depths), "observers": 3, "initial_values": repr(inits(ctx.tier, ctx.seed)),
+                  "configurations": len([c for c in cfgs if not c.get("audit")]), "script_configurations": sorted({subjref.script_tag(c) for c in cfgs}), "values": repr(cfgs[0]["values"])}
     ctx.assumptions = [
         "observers subscribe through the public Observable.subscribe (AutoDetachObserver in front of every observer)",
         "single thread: every lock is free between events",
